@@ -64,6 +64,9 @@ func (sw *sweep) eval(st *state.Store, q *query) obs {
 	ws := memdb.NewWatchSet()
 	idx, res := guard(func() (uint64, string) { return q.Run(st, ws) })
 	o := obs{idx: idx, res: res, ws: ws, bad: strings.HasPrefix(res, "err")}
+	if o.bad && sw.run != nil {
+		sw.run.Tag("query-error:" + q.Kind + ":" + clip(res, 70))
+	}
 	if sw.twice && !o.bad {
 		if i2, r2 := guard(func() (uint64, string) { return q.Run(st, nil) }); i2 != idx || r2 != res {
 			o.bad = true
